@@ -80,7 +80,7 @@ def correspondence(ctx):
         pending = []
         for cons in good:
             m = bench.mapping(11, rng)
-            texts_ok = all(t.isascii() and not any(ch in t for ch in "|\\'\" \t\n") and t[0] not in "<>=!*vV" for t, _ in m)
+            texts_ok = all(t and t.isascii() and not any(ch in t for ch in "|\\'\" \t\n") and t[0] not in "<>=!*vV" for t, _ in m)
             if not texts_ok:
                 continue
             objs = B.real_cons(bench, cons, m)
